@@ -14,6 +14,17 @@ CVC5_TIMEOUT_MS = int(os.environ.get('PYVC_CVC5_TIMEOUT_MS', '6000'))
 CVC5 = '/usr/bin/cvc5'
 
 
+def load_scale():
+    """wall-clock budgets are stretched when the machine is oversubscribed (several checks running
+    at once): a query that needs 1 s of CPU must not become `unknown` because it waited for a
+    core.  1 on an idle machine, at most 10."""
+    try:
+        l = os.getloadavg()[0] / float(os.cpu_count() or 1)
+    except (OSError, AttributeError):
+        l = 1.0
+    return max(1.0, min(10.0, l))
+
+
 def background(axioms):
     fs = list(axioms)
     lits = list(S.all_str_lits().values())
@@ -24,7 +35,7 @@ def background(axioms):
 
 def mk_solver(axioms, pc, goal, seed=0, timeout=None, fuel=2):
     s = z3.Solver()
-    s.set('timeout', timeout or Z3_TIMEOUT_MS)
+    s.set('timeout', int((timeout or Z3_TIMEOUT_MS) * load_scale()))
     if seed:
         s.set('random_seed', seed % 1000)
     fs = background(axioms) + list(pc) + [z3.Not(goal)]
@@ -129,9 +140,9 @@ def discharge1(axioms, obl, seed=0, want_model=True, cross=False, quick_only=Fal
             # short first attempt, then the relevance pass, then the full budget: the few
             # obligations whose full query times out but whose slim query is immediate no longer
             # sit at the edge of the wall-clock budget
-            s.set('timeout', 2000)
+            s.set('timeout', int(2000 * load_scale()))
             r = s.check()
-            s.set('timeout', Z3_TIMEOUT_MS)
+            s.set('timeout', int(Z3_TIMEOUT_MS * load_scale()))
         else:
             r = s.check()
         res['fuel'] = fuel
@@ -148,13 +159,13 @@ def discharge1(axioms, obl, seed=0, want_model=True, cross=False, quick_only=Fal
                 r = s.check()       # full budget
         if r == z3.unsat or not uses_defs:
             break
-        if r == z3.unknown and time.time() - t0 > (Z3_TIMEOUT_MS / 1000.0):
+        if r == z3.unknown and time.time() - t0 > (Z3_TIMEOUT_MS * load_scale() / 1000.0):
             break
     res['time'] = round(time.time() - t0, 4)
     if r == z3.unsat:
         res['status'] = 'discharged'
         if cross:
-            r2, dt2 = run_cvc5(s.to_smt2(), CVC5_TIMEOUT_MS)
+            r2, dt2 = run_cvc5(s.to_smt2(), int(CVC5_TIMEOUT_MS * load_scale()))
             res['cross'] = r2
             res['cross_time'] = round(dt2, 3)
         return res
@@ -164,7 +175,7 @@ def discharge1(axioms, obl, seed=0, want_model=True, cross=False, quick_only=Fal
         return res
     if r == z3.unknown:
         try:
-            r2, dt2 = run_cvc5(s.to_smt2(), CVC5_TIMEOUT_MS)
+            r2, dt2 = run_cvc5(s.to_smt2(), int(CVC5_TIMEOUT_MS * load_scale()))
         except Exception:
             r2, dt2 = 'unknown', 0.0
         if r2 == 'unsat':
